@@ -22,6 +22,44 @@ pub fn dispatch(a: &[String]) -> String {
       let t = dmntk_feel::FeelTime::offset(0, 0, 0, 0, i(&a[1]));
       t.to_string()[8..].to_string()
     }
+    "parse_cmp" => {
+      // names bound in the parsing scope; which explicit grouping does the plain text parse to?
+      let scope = dmntk_feel::Scope::default();
+      for n in a[1].split(',') {
+        scope.set_entry(&dmntk_feel::Name::from(n), dmntk_feel::values::Value::Null(None));
+      }
+      let p = |t: &str| dmntk_feel_parser::parse_expression(&scope, t, false).ok();
+      match p(&a[2]) {
+        None => "ERR".to_string(),
+        Some(plain) => {
+          let mut out = vec![];
+          for (k, label) in [(3usize, "LEFT"), (4, "RIGHT"), (5, "ALT3"), (6, "ALT4"), (7, "ALT5")] {
+            if a.len() > k {
+              if let Some(t) = p(&a[k]) {
+                if t == plain {
+                  out.push(label);
+                }
+              }
+            }
+          }
+          if out.is_empty() {
+            format!("NEITHER {:?}", plain)
+          } else {
+            out.join("+")
+          }
+        }
+      }
+    }
+    "parse_trace" => {
+      let scope = dmntk_feel::Scope::default();
+      for n in a[1].split(',') {
+        scope.set_entry(&dmntk_feel::Name::from(n), dmntk_feel::values::Value::Null(None));
+      }
+      match dmntk_feel_parser::parse_expression(&scope, &a[2], false) {
+        Ok(n) => format!("OK {:?}", n),
+        Err(e) => format!("ERR {}", e),
+      }
+    }
     _ => format!("UNKNOWN-COMMAND {}", a[0]),
   }
 }
